@@ -591,3 +591,7 @@ def check(case):
                 j0 += p['nt']
             if v0 is not None:
                 case.close(v0, tot, rtol=max(1e-9, 100.0 * _COND[0]), what='composed value vs sum of its parts')
+
+
+RULE += (' Classes and clauses added in later rounds of the seeded-change protocol (DESIGN 9.4) are named in REQUIRED '
+         'and in seeded/HISTORY.json; the evidence counts every one of them under classes.')
